@@ -5,7 +5,6 @@
    is tied to the code by the correspondence check: model and implementation agree on the full call log and on
    the full EvictionCache trace of every generated case. *)
 From Connectome Require Import Values Attrs VM Edges Evaluator Sim L2 C01Main C01Inst EdgeFacts Examples.
-From Connectome Require VmGen.
 From Connectome Require EvictGen GraphGen.
 From Connectome Require ColStore ColumnsGen Columns ColumnsFacts EqFacts.
 Local Open Scope list_scope.
@@ -133,10 +132,25 @@ Proof.
 Qed.
 Print Assumptions C03_two_columns_run_a_shared_function_twice.
 
-(* The machine model (Model/VM.v: step, run) mirrors engine/vm.py execute arm by arm and is compared with it on full event traces.
-   The fingerprints (sha256 of the normalised body) are regenerated on every run; an edit of one of these functions re-opens this property
-   even if no sampled case shows a difference. *)
+(* BEGIN PINNED FINGERPRINTS (tools/pin_shapes.py) *)
+(* The functions and classes of /repo that hand-written parts of the model mirror (Model/VM.v, NameLevel.v, Loopback.v) and the glue around the modelled core
+   this property is anchored in: the fingerprints (sha256 of the normalised source, comments and docstrings dropped) are regenerated on every run; an edit of one
+   of them re-opens this property even if no sampled case shows a difference.  Rewritten by tools/pin_shapes.py on a tree on which every check passes. *)
+From Connectome Require VmGen GlueGraphGen GlueChainGen GlueColumnsGen.
 Theorem C03_mirrored_functions_are_the_pinned_ones :
-  VmGen.shape_execute = "3390af1da9648cc9".
+  VmGen.shape_execute = "3390af1da9648cc9" /\
+  GlueGraphGen.shape_class_Graph = "9b10ec592949c6f4" /\
+  GlueGraphGen.shape_evaluate = "2cfd3509723284f1" /\
+  GlueGraphGen.shape_compute_hash = "e8fe66bcf0ec3ecc" /\
+  GlueGraphGen.shape_class_GraphCompiler = "b1003ba6d768dee1" /\
+  GlueGraphGen.shape_find_dependencies = "98effd5d1564b846" /\
+  GlueGraphGen.shape_class_TreeNode = "f3a44e95e44d05b5" /\
+  GlueChainGen.shape_class_CallableLayer = "c80fc9ed956106f0" /\
+  GlueChainGen.shape_class_Instance = "e7a645f498b26984" /\
+  GlueChainGen.shape_class_Chain = "9d9b18d30947136d" /\
+  GlueChainGen.shape_class_LazyChain = "a1c1f777b7f04bfb" /\
+  GlueChainGen.shape_connect = "32cfcae91c959073" /\
+  GlueColumnsGen.shape_class_CacheColumns = "50ebcb3d340e0894".
 Proof. repeat split; reflexivity. Qed.
 Print Assumptions C03_mirrored_functions_are_the_pinned_ones.
+(* END PINNED FINGERPRINTS *)
